@@ -36,6 +36,12 @@ RULE = ('Error objects also with JSON null as error / errorMessage '
         'after it hold nothing (Y6). '
         'Non-trivial: a history with an error reply on a populated token '
         'followed by a successful operation; distinct by history.')
+RULE += (' ' +
+         'Added in later rounds: null-valued error bodies; independence of '
+         'tokens; overlapping operations (A suspended at every line, B '
+         'complete in between) on shared and separate tokens, and a failing '
+         'operation overlapped by a succeeding, storing one on the same '
+         'token (the token must hold what the successful one stored). ')
 LEVEL_TEXT = ('Model-based testing of the token operations over generated '
               'histories x reply shapes, with all 32 initial field subsets '
               'enumerated, against a local HTTP stand-in (real requests '
